@@ -288,6 +288,19 @@ let oracle (f : string list) (impl : string) : string =
   | Some q -> oracle_constraints q impl
   | None ->
   match f with
+  | id :: ("parse" | "lex" | "render") :: src :: _ when starts_with "C08" id -> (
+      (* the hypotheses of the rejection theorem (ParseReject.v) must hold for the token stream of the lexer model,
+         and its conclusion for the implementation: a stream with an ILLEGAL token is never accepted *)
+      match E.lex_all (bytes_of_string (unhex src)) with
+      | None -> "FAIL:the lexer model did not return"
+      | Some ts ->
+          if not (E.tinv ts) then "FAIL:the token stream does not end in EOF or ILLEGAL"
+          else if not (E.sok ts) then "FAIL:an ILLEGAL token is followed by an ordinary token (the rejection theorem assumes it is not)"
+          else if not (E.eol ts) then "FAIL:an EOF token before the end of the token stream"
+          else if List.exists E.illT ts
+                  && (match split_on '\t' impl with [ "PARSE"; "OK"; _ ] | "RENDER" :: "OK" :: _ -> true | _ -> false)
+          then "FAIL:the token stream holds an ILLEGAL token and the template was accepted"
+          else oracle_c08 id impl)
   | id :: _ when starts_with "C08" id -> oracle_c08 id impl
   | id :: "render" :: src :: _ when starts_with "C09" id ->
       (* the hypothesis of the never-panics theorem must hold for what the parser model returns *)
